@@ -28,37 +28,37 @@ import (
 func init() { engines["trace"] = traceEngine }
 
 type versionInfo struct {
-	txid  uint64
-	hwm   uint64
-	used  map[uint64]bool
-	dump  string
-	slot  uint64
+	txid uint64
+	hwm  uint64
+	used map[uint64]bool
+	dump string
+	slot uint64
 }
 
 type tracer struct {
-	e        *Exec
-	o        optSet
-	lines    []string // model input
-	want     []string // expected model output ("" = must be ok)
-	buf      []string // allocator events not yet flushed
-	writes   [][2]int64
-	cur      *versionInfo
-	readers  map[string]*versionInfo
-	rep      *Report
-	ops      []Op
-	failed   string
-	hwms     []uint64 // high-water mark after every commit
+	e       *Exec
+	o       optSet
+	lines   []string // model input
+	want    []string // expected model output ("" = must be ok)
+	buf     []string // allocator events not yet flushed
+	writes  [][2]int64
+	cur     *versionInfo
+	readers map[string]*versionInfo
+	rep     *Report
+	ops     []Op
+	failed  string
+	hwms    []uint64 // high-water mark after every commit
 	// C10 bookkeeping for the current write transaction
-	noReaderTx  bool
-	freedPages  int
-	steady      bool
+	noReaderTx bool
+	freedPages int
+	steady     bool
 	// fault injection (engine fault): fail the faultAt-th I/O call (1-based) issued during op faultOp
-	faultOp   int
-	faultAt   int
-	ioCount   int
-	curOp     int
-	faultKind string // kind of the call that was failed
-	ioKinds   []string
+	faultOp         int
+	faultAt         int
+	ioCount         int
+	curOp           int
+	faultKind       string // kind of the call that was failed
+	ioKinds         []string
 	lastMetaWritten bool
 	quietUntil      int
 	filled          bool
